@@ -163,6 +163,7 @@ func runC04(c *Ctx) {
 	c.shared("R20", "C19/R4", "a program that does not assign to the document leaves it as read: the names a match pattern binds stand for cells of the matched value, and only the alternative that matched contributes them — a name left over from a failed alternative makes an assignment to a variable of the program a write into the document", keyHas("bindings-per-alternative"), runC19)
 	c.shared("R21", "C02/R2", "-o writes the document of the run: the driver records every decoded root as the evaluator's root before the rules of that root run, whether or not the program has pattern rules (a program of BEGINFILE / ENDFILE rules only still has a document to write)", keyHas("root-bound", "driver-root"), c02R2)
 	c.shared("R22", "C15/R4", "json(v) parses back to v for an array that was filled up to an index: every padding slot has a null cell of its own (one shared cell makes a later write to one slot show in all of them)", keyHas("fill-cell-per-iteration"), func(s *Ctx) { indexResolution(s, "R4") })
+	c.shared("R23", "C09/R8", "a member of the document that is named like a method is still that member: an object's own key is looked up before the prototype (-r '$.length' selects the member, json() converts it)", keyHas("object-own-key-first"), func(s *Ctx) { memberResolutionOrder(s, "R8") })
 	c.shared("R17", "C08/R1", "a program that does not assign to the document leaves it as read: match bindings are the document's own cells, and every match evaluation pops its frame on every way out (a frame left behind keeps them bound to names that later code assigns to)", keyHas("balance "), func(s *Ctx) { c08R1(s, discoverFrameModel(s.P)) })
 	c.shared("R7", "C14/R4", "what -o writes is the root selected last: every selector's result becomes a root (a null result included)", keyHas("selector-root-unconditional", "root-list"), func(s *Ctx) { rootsPerValue(s, "R4") })
 	stringIndexArm(c, "R8")
